@@ -167,6 +167,25 @@ static void run_type(uint64_t seed)
         cmpc("mul_real_batch", va * vr, [](CL x, CL, CL, ld r) { return x * r; }, 8, 0, none);
         cmpc("add_real_batch", va + vr, [](CL x, CL, CL, ld r) { return x + r; }, 8, 0, none);
         cmpc("div_real_batch", va / vr, [](CL x, CL, CL, ld r) { return r == 0 ? CL(NAN, NAN) : x / r; }, 8, 0, none);
+        cmpc("sub_real_batch", va - vr, [](CL x, CL, CL, ld r) { return x - r; }, 8, 0, none);
+        cmpc("real_batch_add", vr + va, [](CL x, CL, CL, ld r) { return r + x; }, 8, 0, none);
+        cmpc("real_batch_sub", vr - va, [](CL x, CL, CL, ld r) { return r - x; }, 8, 0, none);
+        cmpc("real_batch_mul", vr * va, [](CL x, CL, CL, ld r) { return r * x; }, 8, 0, none);
+        cmpc("real_batch_div", vr / va, [](CL x, CL, CL, ld r) { return x == CL(0) ? CL(NAN, NAN) : CL(r) / x; }, 8, 0, none);
+        {
+            // a scalar complex / scalar real on either side
+            const C sc = b[0];
+            const CL scl(sc);
+            const T sr = rr[0] == 0 ? (T)1.5 : rr[0];
+            const ld srl = sr;
+            cmpc("add_scalar_complex", va + sc, [scl](CL x, CL, CL, ld) { return x + scl; }, 8, 0, none);
+            cmpc("scalar_complex_sub", sc - va, [scl](CL x, CL, CL, ld) { return scl - x; }, 8, 0, none);
+            cmpc("mul_scalar_complex", va * sc, [scl](CL x, CL, CL, ld) { return x * scl; }, 8, 0, none);
+            cmpc("scalar_complex_div", sc / va, [scl](CL x, CL, CL, ld) { return x == CL(0) ? CL(NAN, NAN) : scl / x; }, 8, 0, none);
+            cmpc("mul_scalar_real", va * sr, [srl](CL x, CL, CL, ld) { return x * srl; }, 8, 0, none);
+            cmpc("scalar_real_sub", sr - va, [srl](CL x, CL, CL, ld) { return srl - x; }, 8, 0, none);
+            cmpc("div_scalar_real", va / sr, [srl](CL x, CL, CL, ld) { return x / srl; }, 8, 0, none);
+        }
         cmpc("fma", xs::fma(va, vb, vc), [](CL x, CL y, CL z, ld) { return x * y + z; }, 8, 2, none);
         cmpc("fms", xs::fms(va, vb, vc), [](CL x, CL y, CL z, ld) { return x * y - z; }, 8, 2, none);
         cmpc("fnma", xs::fnma(va, vb, vc), [](CL x, CL y, CL z, ld) { return -(x * y) + z; }, 8, 2, none);
